@@ -1297,6 +1297,7 @@ func runC09(c *Cfg) {
 							cs.Odd = &OddItem{I: f, Kind: []string{"nil", "error"}[(idx/5)%2]} // the failing item is one without a payload of its own: its failure counts like any other
 						}
 						cs.CtxLike = idx%5 == 0 // a per-item timeout is an ordinary failure: it stops the batch like any other
+						cs.AggErrs = !cs.CtxLike && idx%6 == 4 // so is a failure that wraps an (empty) aggregate of the library's own error type
 						cases = append(cases, cs)
 						idx++
 					}
